@@ -36,6 +36,12 @@ class CoopLock(object):
         run = getattr(_current, 'run', None)
         if run is None or run.free or not blocking:
             return self.inner.acquire(blocking, timeout) if blocking else self.inner.acquire(False)
+        if timeout is not None and timeout >= 0:
+            # an acquire that gives up after a while: whether the holder is done in time is the scheduler's choice too -
+            # in an `expire_timeouts` run a timed acquire that finds the lock taken fails at once (the holder was slow)
+            run.timed_acquires += 1
+            if run.expire_timeouts:
+                return self.inner.acquire(False)
         spins = 0
         while not self.inner.acquire(False):
             if run.free:
@@ -126,7 +132,7 @@ def cooperative_locks(prefix='athlib'):
 
 
 class Run(object):
-    def __init__(self, thunks, schedule, first=0, record_lines=False, probe=None, untraced_tail=None):
+    def __init__(self, thunks, schedule, first=0, record_lines=False, probe=None, untraced_tail=None, expire_timeouts=False):
         self.thunks = thunks
         self.n = len(thunks)
         self.schedule = list(schedule)        # [(tid, index, target)]
@@ -144,6 +150,8 @@ class Run(object):
         # the rest of the run (new frames run untraced), so that interpreter-level accounting that differs under a tracer -
         # recursion depth above all - is that of an ordinary program where it matters
         self.untraced_tail = UNTRACED_TAIL if untraced_tail is None else untraced_tail
+        self.expire_timeouts = expire_timeouts
+        self.timed_acquires = 0
         self.probe = probe                  # callable sampled at every yield point (process-wide settings), record mode only
         self.probes = [[] for _ in thunks] if probe else None
         self.lock = threading.Lock()
